@@ -73,12 +73,14 @@ def roots_case(draw):
 
 @st.composite
 def limit_case(draw):
-    t0 = draw(st.sampled_from([[0, 1], [1, 1], [-2, 1], [1, 2], [3, 4], [5, 1], [-1, 4]]))
+    t0 = draw(st.sampled_from([[0, 1], [1, 1], [-2, 1], [1, 2], [3, 4], [5, 1], [-1, 4], [1, 2 ** 30], [-1, 2 ** 20]]))
     mf = draw(st.integers(0, 3))
     mg = draw(st.integers(0, 3))
     fr = draw(st.lists(st.integers(-5, 5), min_size=1, max_size=3))   # cofactor coefficients (integers)
     gr = draw(st.lists(st.integers(-5, 5), min_size=1, max_size=3))
-    return {'kind': 'limit', 't0': t0, 'mf': mf, 'mg': mg, 'f': fr, 'g': gr}
+    # common power-of-two scale of both polynomials (exact in binary floating point; the limit is unchanged)
+    k = draw(st.sampled_from([0, 0, 10, 20, 30, 40, -20]))
+    return {'kind': 'limit', 't0': t0, 'mf': mf, 'mg': mg, 'f': fr, 'g': gr, 'k': k}
 
 
 @st.composite
@@ -341,8 +343,11 @@ def check_limit(case, ctx):
         return m, q
     a, fq = mult(f)
     b, gq = mult(g)
-    fpoly = np.poly1d([float(c) for c in f])
-    gpoly = np.poly1d([float(c) for c in g])
+    sc = 2.0 ** -case.get('k', 0)
+    fpoly = np.poly1d([float(c) * sc for c in f])
+    gpoly = np.poly1d([float(c) * sc for c in g])
+    if case.get('k', 0):
+        ctx.count('limit:scaled_polynomials')
     if a >= 1 and b >= 1:
         ctx.count('limit:common_zero')
         ctx.nontrivial()
